@@ -619,7 +619,9 @@ class SpecArray(object):
         fp = self.fp(smooth=smooth)
         alpha_pm = 0.3125 * self.hs() ** 2 * fp**4
         epm_fp = alpha_pm * fp**-5 * 0.2865048
-        gamma = self.oned().max(dim=attrs.FREQNAME) / epm_fp
+        Sf = self.oned()
+        ifreq = xr.zeros_like(Sf[attrs.FREQNAME], dtype=int) + np.arange(Sf[attrs.FREQNAME].size)
+        gamma = Sf.where(ifreq == self._peak(Sf)).sum(dim=attrs.FREQNAME) / epm_fp
         if scaled:
             # polynomial approximation for gamma
             p = [0.0378375, -0.13543292, 0.64087366, 0.32524949, 0.12974958]
